@@ -103,7 +103,7 @@ func (fv *FnVerifier) execRange(x *ssa.Range, st *State) {
 		unsupported("range over %s", x.X.Type())
 	}
 	fv.env[x] = Val{T: x.X.Type(), S: fv.value(x.X, st).S}
-	_ = mt
+	fv.rangeStart(x, mt, fv.env[x], st)
 }
 
 func (fv *FnVerifier) execNext(x *ssa.Next, st *State) {
@@ -124,6 +124,7 @@ func (fv *FnVerifier) execNext(x *ssa.Next, st *State) {
 	fv.q.assume("(=> " + ok + " " + fv.mode.cmp(">", card, fv.mode.idx(0), true) + ")")
 	v := fv.q.bind(x.Name()+".v", fv.sortOf(mt.Elem()), "(select (select "+fv.heapGet(st, ks[1])+" "+mp.S+") "+k.S+")")
 	fv.q.assume(fv.wf(v, mt.Elem(), st))
+	fv.rangeStep(rng, mt, mp, ok, k, st)
 	fv.note("map range: every iteration visits an arbitrary key of the current domain (all orders covered; termination not claimed)")
 	fv.env[x] = Val{T: x.Type(), Tup: []Val{{T: types.Typ[types.Bool], S: ok}, k, {T: mt.Elem(), S: v}}}
 }
